@@ -131,6 +131,17 @@ func runControls(r *Report) {
 			return len(nds) == 1 && nds[0].bad == token.NoPos
 		}},
 		{"timeout-only", "OnlyTimeoutGood", "OnlyTimeoutBad", func(f *ssa.Function) bool { return timeoutOnly(f) }},
+		{"sync-pool-ownership", "PoolGood", "PoolBad", func(f *ssa.Function) bool {
+			tmp := &Report{Prop: "ctl", rulesSeen: map[string]int{}}
+			n := checkSyncPoolOwnership(tmp, "ctl", f)
+			bad := 0
+			for _, o := range tmp.Obs {
+				if !o.OK {
+					bad++
+				}
+			}
+			return n == 1 && bad == 0
+		}},
 		{"read-at-least", "AtLeastGood", "AtLeastBad", func(f *ssa.Function) bool {
 			return ClassifyRead(callTo(f, "io:ReadAtLeast")).Shape == "full"
 		}},
